@@ -1,6 +1,7 @@
 mod asm;
 mod gen_asm;
 mod gen_cmd;
+mod gen_edit;
 mod gen_files;
 mod gen_isa;
 mod gen_run;
@@ -24,6 +25,7 @@ fn main() {
         ("gen", "run") => gen_run::main(&args),
         ("gen", "cmd") => gen_cmd::main(&args),
         ("gen", "files") => gen_files::main(&args),
+        ("gen", "edit") => gen_edit::main(&args),
         (a, b) => {
             eprintln!("unknown command {a} {b}");
             std::process::exit(2);
